@@ -19,7 +19,7 @@ VERIF = os.path.dirname(os.path.dirname(os.path.abspath(__file__)))
 REPO = os.environ.get("VERIF_REPO", "/repo")
 SPEC = os.path.join(VERIF, "spec")
 HARNESS = os.path.join(VERIF, "harness")
-EVID = os.path.join(VERIF, "evidence")
+EVID = os.environ.get("VERIF_EVID") or os.path.join(VERIF, "evidence")   # VERIF_EVID: seeded-change runs write elsewhere
 GO = os.environ.get("VERIF_GO", "go1.26.8")
 NPROC = os.cpu_count() or 4
 
@@ -112,7 +112,16 @@ class Run:
             os.replace(tmp, dst)
         out = os.path.join(self.scratch, "harness.test")
         t = time.time()
-        p = subprocess.run([GO, "test", "-tags", "verif", "-c", "-o", out, "."], cwd=HARNESS,
+        hdir = HARNESS
+        if REPO != "/repo":
+            # a tree other than /repo (bin/seedcheck: a scratch worktree carrying a seeded change): build a copy of the
+            # harness whose replace directive points there
+            hdir = os.path.join(self.scratch, "harness_src")
+            shutil.copytree(HARNESS, hdir)
+            gm = open(os.path.join(hdir, "go.mod")).read().replace("=> /repo", "=> " + REPO)
+            open(os.path.join(hdir, "go.mod"), "w").write(gm)
+            shutil.copy(os.path.join(REPO, "go.sum"), os.path.join(hdir, "go.sum"))
+        p = subprocess.run([GO, "test", "-tags", "verif", "-c", "-o", out, "."], cwd=hdir,
                            env=goenv(), capture_output=True, text=True)
         if p.returncode != 0 or not os.path.exists(out):
             raise Machinery("harness build against %s failed:\n%s\n%s" % (REPO, p.stdout[-4000:], p.stderr[-4000:]))
@@ -134,6 +143,9 @@ class Run:
         except subprocess.TimeoutExpired:
             raise Machinery("harness %s timed out after %ds" % (run_regex, timeout))
         if p.returncode != 0 and not allow_fail:
+            lp = library_panic(p.stdout + "\n" + p.stderr)
+            if lp:
+                raise LibraryPanic(run_regex, lp)
             raise Machinery("harness run %s exited %d:\n%s\n%s" % (run_regex, p.returncode, p.stdout[-6000:], p.stderr[-3000:]))
         if "no tests to run" in p.stdout:
             raise Machinery("harness run %s matched no tests" % run_regex)
@@ -288,6 +300,29 @@ def load_known_findings():
         return []
     with open(p) as f:
         return json.load(f).get("findings", [])
+
+
+class LibraryPanic(Exception):
+    """The code under test panicked (first frame of the panicking goroutine below the runtime is in REPO) while the
+    harness drove it through a scenario of the property's domain: a violation, reported with the stack."""
+    def __init__(self, test, info):
+        Exception.__init__(self, "%s: %s" % (test, info["value"]))
+        self.test, self.info = test, info
+
+
+def library_panic(out):
+    m = re.search(r"^panic: (.*)$", out, flags=re.M)
+    if not m:
+        return None
+    tail = out[m.start():]
+    frames = re.findall(r"^\t(/\S+\.go):(\d+)", tail, flags=re.M)
+    for path, line in frames:
+        if "/src/runtime/" in path or "/src/testing/" in path or "/src/internal/" in path or "/src/sync/" in path or "/src/container/" in path:
+            continue
+        if path.startswith(REPO.rstrip("/") + "/"):
+            return {"value": m.group(1)[:300], "frame": "%s:%s" % (path, line), "stack": tail[:3000]}
+        return None   # the first frame of our own is harness code: a machinery problem
+    return None
 
 
 def parse_tlc(out, rc):
